@@ -396,6 +396,23 @@ static int twinCall(int un, const char* c, U32* res) {
         st32(a(8), twN); twN++;
         *res = 0; return 1;
     }
+    if ((!strcmp(c, "path_unlink_file") && nA == 3) || (!strcmp(c, "path_rename") && nA == 6)) {
+        /* unlink(2) / rename(2) on paths relative to the directory descriptors (relative guest paths only) */
+        int ren = c[5] == 'r'; char p1[PATH_MAX * 2], p2[PATH_MAX * 2]; int k, r;
+        U32 fds[2], ptr[2], len[2]; char* dst[2];
+        fds[0] = a(0); ptr[0] = a(1); len[0] = a(2); dst[0] = p1; dst[1] = p2;
+        if (ren) { fds[1] = a(3); ptr[1] = a(4); len[1] = a(5); }
+        for (k = 0; k < (ren ? 2 : 1); k++) if (!twLive(fds[k]) || !tw[fds[k]].dirpath) { *res = 8; return 1; }
+        for (k = 0; k < (ren ? 2 : 1); k++) {
+            size_t dl = strlen(tw[fds[k]].dirpath);
+            if ((U64)ptr[k] + len[k] > MEMSIZE || len[k] == 0 || len[k] >= PATH_MAX || guest.data[ptr[k]] == '/') return 0;
+            if (memchr(guest.data + ptr[k], 0, len[k])) return 0;
+            memcpy(dst[k], tw[fds[k]].dirpath, dl); dst[k][dl] = '/'; memcpy(dst[k] + dl + 1, guest.data + ptr[k], len[k]); dst[k][dl + 1 + len[k]] = 0;
+        }
+        r = ren ? rename(p1, p2) : unlink(p1);
+        *res = r == 0 ? 0 : twErrno(errno);
+        return 1;
+    }
     if (!strcmp(c, "fd_filestat_get") && nA == 2) {
         struct stat st; U32 p = a(1); int r;
         if (!twLive(a(0))) { *res = 8; return 1; }
